@@ -9,7 +9,7 @@ Definition core (st : state) : state :=
   upd st (filter (fun c => negb (is_monitor st c)) (st_conns st)) (st_next st) (st_own st) (st_rules st) [] [] (st_pend st).
 
 Definition erase (it : item) : item :=
-  mkItem [] (i_from it) (i_addr it) (i_msg it) (i_local it) [] (i_direct it) (i_match it).
+  mkItem [] (i_from it) (i_addr it) (i_msg it) (i_local it) [] (i_direct it) (i_match it) (i_resumed it).
 
 (* ---------------------------------------------------------------- views only look at erased items *)
 Lemma view_app c l1 l2 : view c (l1 ++ l2) = view c l1 ++ view c l2.
@@ -102,6 +102,53 @@ Proof.
   destruct (fanout st None None (noc_msg n old new)) as [rs2 rf2]. simpl in H1. subst. reflexivity.
 Qed.
 
+Lemma deliver_erase st c r m resumed :
+  is_monitor st c = false -> res_sim (deliver (core st) c r m resumed) (deliver st c r m resumed).
+Proof.
+  intros Hc. unfold deliver. simpl st_pend. simpl st_own.
+  destruct (check_policy (st_pend st) c r m) as [pl v]. cbv zeta.
+  destruct v as [e|].
+  - split; simpl; auto. f_equal; [destruct resumed; reflexivity|]. f_equal. apply (from_driver_erase (set_pend st pl) c _ Hc).
+  - destruct (fanout_erase (set_pend st pl) (Some c) (Some r) m) as [H1 H2].
+    change (core (set_pend st pl)) with (set_pend (core st) pl) in H1, H2.
+    destruct (fanout (set_pend (core st) pl) (Some c) (Some r) m) as [rs1 rf1].
+    destruct (fanout (set_pend st pl) (Some c) (Some r) m) as [rs2 rf2]. simpl in *. subst.
+    split; simpl; auto. rewrite H2. f_equal. destruct resumed; reflexivity.
+Qed.
+
+Lemma resume_all_erase r l : forall st,
+  (forall n c m, In (n, c, m) l -> is_monitor st c = false) ->
+  res_sim (resume_all (core st) r l) (resume_all st r l) /\ st_mons (fst (resume_all st r l)) = st_mons st.
+Proof.
+  induction l as [|[[n c] m] l IH]; intros st Hl; simpl; [split; [split|]; reflexivity|].
+  assert (Hc : is_monitor st c = false) by (apply (Hl n c m); left; reflexivity).
+  assert (Hl' : forall n' c' m', In (n', c', m') l -> is_monitor st c' = false) by (intros n' c' m' H; apply (Hl n' c' m'); right; auto).
+  rewrite (connected_core_nm st c Hc). destruct (connected st c); [|apply IH; auto].
+  destruct (deliver_erase st c r m true Hc) as [D1 D2].
+  pose proof (deliver_state st c r m true) as Hs.
+  destruct (deliver (core st) c r m true) as [s1' i1']. destruct (deliver st c r m true) as [s1 i1]. simpl in D1, D2, Hs. subst s1'.
+  assert (Em : st_mons s1 = st_mons st) by (subst s1; reflexivity).
+  destruct (IH s1) as [[R1 R2] R3].
+  { intros n' c' m' H. unfold is_monitor. rewrite Em. apply (Hl' n' c' m' H). }
+  destruct (resume_all (core s1) r l) as [s2' i2']. destruct (resume_all s1 r l) as [s2 i2]. simpl in *.
+  split; [split; simpl; auto; rewrite !map_app, D2, R2; reflexivity | congruence].
+Qed.
+
+Lemma release_held_erase_gen st nm :
+  clean (is_monitor st) st ->
+  fst (release_held (core st) nm) = core (fst (release_held st nm)) /\
+  map erase (snd (release_held (core st) nm)) = map erase (snd (release_held st nm)) /\
+  st_mons (fst (release_held st nm)) = st_mons st.
+Proof.
+  intros C. unfold release_held. simpl st_own. simpl st_held.
+  destruct (primary (st_own st) nm) as [r|]; [|repeat split; reflexivity].
+  set (st0 := set_held st (filter (fun h => negb (held_for nm h)) (st_held st))).
+  destruct (resume_all_erase r (filter (held_for nm) (st_held st)) st0) as [[R1 R2] R3].
+  { intros n c m H. apply filter_In in H. destruct H as [H _]. destruct C as (_ & _ & _ & K4). apply (K4 n c m H). }
+  change (set_held (core st) (filter (fun h => negb (held_for nm h)) (st_held st))) with (core st0).
+  repeat split; auto.
+Qed.
+
 Section WithClean.
 Variable st : state.
 Hypothesis C : clean (is_monitor st) st.
@@ -124,7 +171,7 @@ Proof.
   unfold res_sim, noreply_items. simpl. split; [reflexivity|].
   rewrite !map_map. apply map_ext_in. intros p Hp. unfold orphaned in Hp. apply filter_In in Hp. destruct Hp as [Hp _].
   apply (from_driver_erase (set_pend st (drop_pending (st_pend st) c))).
-  destruct C as (_ & _ & H3). apply (H3 p Hp).
+  destruct C as (_ & _ & H3 & _). apply (H3 p Hp).
 Qed.
 
 Lemma error_reply_erase c m e : is_monitor st c = false -> erase (error_reply (core st) c m e) = erase (error_reply st c m e).
@@ -142,15 +189,29 @@ Lemma request_name_erase c s n dnq :
   is_monitor st c = false -> res_sim (request_name (core st) c s n dnq) (request_name st c s n dnq).
 Proof.
   intros Hc. unfold request_name. simpl st_own.
+  assert (G : forall st1 (l' l : list item) (code : N), clean (is_monitor st1) st1 -> is_monitor st1 c = false ->
+              map erase l' = map erase l ->
+              res_sim (let '(st'', l2) := release_held (core st1) (NWk n) in
+                       (st'', l' ++ l2 ++ [from_driver st'' c (reply_msg c s [ANum code])]))
+                      (let '(st'', l2) := release_held st1 (NWk n) in
+                       (st'', l ++ l2 ++ [from_driver st'' c (reply_msg c s [ANum code])]))).
+  { intros st1 l' l code C1 Hc1 El. destruct (release_held_erase_gen st1 (NWk n) C1) as (R1 & R2 & R3).
+    destruct (release_held (core st1) (NWk n)) as [s2' l2']. destruct (release_held st1 (NWk n)) as [s2 l2].
+    simpl in R1, R2, R3. subst s2'. split; simpl; auto.
+    rewrite !map_app, El, R2. f_equal. f_equal. simpl. f_equal. apply from_driver_erase.
+    unfold is_monitor. rewrite R3. exact Hc1. }
   destruct (queue (st_own st) (NWk n)) as [|p q] eqn:Eq.
-  - split; simpl; auto. rewrite noc_item_erase, (from_driver_erase st c _ Hc).
-    rewrite <- (from_driver_erase (set_own st (st_own st ++ [(NWk n, c)])) c _ Hc). reflexivity.
-  - destruct (p =? c); [split; simpl; auto; rewrite (from_driver_erase st c _ Hc); reflexivity|].
+  - apply (G (set_own st (st_own st ++ [(NWk n, c)]))).
+    + apply (clean_set_own_add (is_monitor st) st); auto.
+    + exact Hc.
+    + simpl. rewrite noc_item_erase, (from_driver_erase st c _ Hc). reflexivity.
+  - destruct (p =? c); [apply (G st); auto|].
     destruct dnq.
-    + split; simpl; auto. rewrite <- (from_driver_erase (set_own st (unlink (st_own st) (NWk n) c)) c _ Hc). reflexivity.
-    + destruct (memN c (p :: q)); split; simpl; auto.
-      * rewrite (from_driver_erase st c _ Hc). reflexivity.
-      * rewrite <- (from_driver_erase (set_own st (st_own st ++ [(NWk n, c)])) c _ Hc). reflexivity.
+    + apply (G (set_own st (unlink (st_own st) (NWk n) c))); auto.
+      apply (clean_set_own_sub (is_monitor st) st); auto. intros [k o] H. apply unlink_In in H. tauto.
+    + destruct (memN c (p :: q)); [apply (G st); auto|].
+      apply (G (set_own st (st_own st ++ [(NWk n, c)]))); auto.
+      apply (clean_set_own_add (is_monitor st) st); auto.
 Qed.
 
 Lemma release_name_erase c s n :
@@ -184,44 +245,19 @@ Qed.
 
 Lemma dispatch_erase c m : is_monitor st c = false -> res_sim (dispatch (core st) c m) (dispatch st c m).
 Proof.
-  intros Hc. unfold dispatch. simpl st_own. simpl st_pend.
+  intros Hc. unfold dispatch. simpl st_own.
   destruct (b_dest m) as [d|].
   2:{ destruct (fanout_erase st (Some c) None m) as [H1 H2].
       destruct (fanout (core st) (Some c) None m) as [rs1 rf1]. destruct (fanout st (Some c) None m) as [rs2 rf2].
       simpl in *. subst. split; simpl; auto. rewrite H2. reflexivity. }
   assert (G : forall d', res_sim
-     (match primary (st_own st) d' with
-      | None => (core st, [entry_item (core st) c m; error_reply (core st) c m (if b_noauto m then E_NAME_HAS_NO_OWNER else E_SERVICE_UNKNOWN)])
-      | Some r =>
-          let '(pl, verdict) := check_policy (st_pend st) c r m in
-          let st' := set_pend (core st) pl in
-          match verdict with
-          | Some e => (st', [mk_item (core st) (Some c) (Some r) m None []; error_reply st' c m e])
-          | None => let '(rs, refused) := fanout st' (Some c) (Some r) m in
-                    (st', mk_item (core st) (Some c) (Some r) m (Some r) rs :: refused)
-          end
-      end)
-     (match primary (st_own st) d' with
-      | None => (st, [entry_item st c m; error_reply st c m (if b_noauto m then E_NAME_HAS_NO_OWNER else E_SERVICE_UNKNOWN)])
-      | Some r =>
-          let '(pl, verdict) := check_policy (st_pend st) c r m in
-          let st' := set_pend st pl in
-          match verdict with
-          | Some e => (st', [mk_item st (Some c) (Some r) m None []; error_reply st' c m e])
-          | None => let '(rs, refused) := fanout st' (Some c) (Some r) m in
-                    (st', mk_item st (Some c) (Some r) m (Some r) rs :: refused)
-          end
-      end)).
+     (match primary (st_own st) d' with None => no_owner (core st) c d' m | Some r => deliver (core st) c r m false end)
+     (match primary (st_own st) d' with None => no_owner st c d' m | Some r => deliver st c r m false end)).
   { intros d'. destruct (primary (st_own st) d') as [r|].
-    2:{ split; simpl; auto. rewrite (error_reply_erase c m _ Hc). reflexivity. }
-    destruct (check_policy (st_pend st) c r m) as [pl v]. cbv zeta.
-    destruct v as [e|].
-    - split; simpl; auto. f_equal. f_equal. apply (from_driver_erase (set_pend st pl) c _ Hc).
-    - destruct (fanout_erase (set_pend st pl) (Some c) (Some r) m) as [H1 H2].
-      change (core (set_pend st pl)) with (set_pend (core st) pl) in H1, H2.
-      destruct (fanout (set_pend (core st) pl) (Some c) (Some r) m) as [rs1 rf1].
-      destruct (fanout (set_pend st pl) (Some c) (Some r) m) as [rs2 rf2]. simpl in *. subst.
-      split; simpl; auto. rewrite H2. reflexivity. }
+    - apply deliver_erase; auto.
+    - unfold no_owner. destruct (b_noauto m); [split; simpl; auto; rewrite (error_reply_erase c m _ Hc); reflexivity|].
+      destruct (negb (activatable d')); [split; simpl; auto; rewrite (error_reply_erase c m _ Hc); reflexivity|].
+      destruct (deny_send m false); split; simpl; auto. rewrite (error_reply_erase c m _ Hc). reflexivity. }
   destruct d as [|u|w].
   - apply to_driver_erase; auto. apply driver_generic_erase; auto.
   - apply G.
@@ -257,8 +293,8 @@ Lemma core_conns_ext st1 st2 :
 Proof. intros H E. rewrite <- E. apply filter_ext_in. intros c Hc. rewrite (H c Hc). reflexivity. Qed.
 
 (* ---------------------------------------------------------------- whole steps *)
-Lemma connect_erase st :
-  is_monitor st (st_next st) = false -> res_sim (connect (core st)) (connect st).
+Lemma connect_erase st priv :
+  is_monitor st (st_next st) = false -> res_sim (connect (core st) priv) (connect st priv).
 Proof.
   intros Hf. unfold connect, res_sim. simpl st_next. simpl st_own. split.
   - simpl. unfold core, set_own. simpl. f_equal. unfold is_monitor. simpl.
@@ -284,7 +320,7 @@ Proof.
   { unfold core, st1. simpl. f_equal. rewrite !filter_filter. apply filter_ext. intros x. apply andb_comm. }
   rewrite E1.
   assert (C1 : clean (is_monitor st1) st1).
-  { destruct C as (K1 & K2 & K3). split; [|split]; simpl; auto.
+  { destruct C as (K1 & K2 & K3 & K4). split; [|split; [|split]]; simpl; auto.
     intros r H. unfold drop_rules in H. apply filter_In in H. apply K2. tauto. }
   assert (Hc1 : is_monitor st1 c = false) by exact Hc.
   change (st_own (core st1)) with (st_own st1).
@@ -366,7 +402,7 @@ Proof.
     + subst st3 st3' s2 s2'. unfold noreply_items. simpl. rewrite !map_map. apply map_ext_in. intros p Hp.
       unfold orphaned in Hp. apply filter_In in Hp. destruct Hp as [Hp Hf].
       assert (Hnm : is_monitor st (p_get p) = false).
-      { destruct C as (_ & _ & K3). apply K3. exact Hp. }
+      { destruct C as (_ & _ & K3 & _). apply K3. exact Hp. }
       assert (Ec : connected (core st) (p_get p) = connected st (p_get p)) by (apply connected_core_nm; auto).
       unfold connected in Ec. simpl in Ec.
       unfold from_driver, erase, mk_item, connected. simpl. rewrite Ec. reflexivity.
@@ -411,7 +447,7 @@ Proof.
     unfold step at 1 3. rewrite W'. simpl. rewrite CC.
     unfold step. destruct (wf_event st e) eqn:W; simpl; [|split; auto].
     destruct (disconnect_monitor_core st c Hm) as [D1 D2].
-    destruct e as [|c0|c0 m|c0 s n dnq|c0 s n|c0 s f|c0 s|c0 s fs]; simpl in Ha; try discriminate; inversion Ha; subst c0; simpl;
+    destruct e as [priv|c0|c0 m|c0 s n dnq|c0 s n|c0 s f|c0 s|c0 s so fl rs]; simpl in Ha; try discriminate; inversion Ha; subst c0; simpl;
       try (rewrite Hm; rewrite D1, D2; split; auto).
     - rewrite D1, D2. split; auto.
     - destruct (peer_local (stamp c m)).
@@ -419,20 +455,32 @@ Proof.
       + rewrite Hm. rewrite D1, D2. split; auto. }
   destruct (actor e) as [c|] eqn:Ha.
   2:{ destruct e; simpl in Ha; try discriminate. unfold step. simpl.
-      destruct (RS _ _ (connect_erase st Hfresh)) as [H1 H2]. split; auto. }
+      destruct (RS _ _ (connect_erase st priv Hfresh)) as [H1 H2]. split; auto. }
   destruct (is_monitor st c) eqn:Hm; [apply (MON c eq_refl Hm)|].
   unfold step. rewrite (wf_event_core st e c Ha Hm). destruct (wf_event st e) eqn:W; simpl; [|rewrite CC; split; auto].
-  destruct e as [|c0|c0 m|c0 s n dnq|c0 s n|c0 s f|c0 s|c0 s fs]; simpl in Ha; try discriminate; inversion Ha; subst c0; simpl.
+  destruct e as [priv|c0|c0 m|c0 s n dnq|c0 s n|c0 s f|c0 s|c0 s so fl rs]; simpl in Ha; try discriminate; inversion Ha; subst c0; simpl.
   - destruct (RS _ _ (disconnect_ordinary_erase st c C Hm)) as [H1 H2]. split; auto.
   - destruct (peer_local (stamp c m)); [simpl; rewrite CC; split; auto|].
     rewrite Hm. destruct (unrouted (stamp c m)); [simpl; rewrite CC; split; auto|].
     destruct (RS _ _ (dispatch_erase st c (stamp c m) Hm)) as [H1 H2]. split; auto.
-  - rewrite Hm. destruct (RS _ _ (to_driver_erase st c (call_msg c s I_DBUS M_REQUEST_NAME) _ _ Hm (request_name_erase st c s n dnq Hm))) as [H1 H2]. split; auto.
+  - rewrite Hm. destruct (RS _ _ (to_driver_erase st c (call_msg c s I_DBUS M_REQUEST_NAME) _ _ Hm (request_name_erase st C c s n dnq Hm))) as [H1 H2]. split; auto.
   - rewrite Hm. destruct (RS _ _ (to_driver_erase st c (call_msg c s I_DBUS M_RELEASE_NAME) _ _ Hm (release_name_erase st C c s n Hm))) as [H1 H2]. split; auto.
   - rewrite Hm. destruct (RS _ _ (to_driver_erase st c (call_msg c s I_DBUS M_ADD_MATCH) _ _ Hm (add_match_erase st c s f Hm))) as [H1 H2]. split; auto.
   - rewrite Hm. destruct (RS _ _ (to_driver_erase st c (call_msg c s I_DBUS M_GET_ID) _ _ Hm (get_id_erase st c s Hm))) as [H1 H2]. split; auto.
-  - rewrite Hm. destruct (become_monitor_erase st c s fs C Hm) as [H1 H2].
-    unfold to_driver. destruct (deny_send (call_msg c s I_MONITORING M_BECOME_MONITOR) false) eqn:Ed; [discriminate|].
+  - rewrite Hm. unfold to_driver. destruct (deny_send (call_msg c s I_MONITORING M_BECOME_MONITOR) false) eqn:Ed; [discriminate|].
+    unfold become_monitor_call. simpl st_unpriv.
+    assert (RF : forall e0, core (fst (core st, [error_reply (core st) c (call_msg c s I_MONITORING M_BECOME_MONITOR) e0])) =
+                            core (fst (st, [error_reply st c (call_msg c s I_MONITORING M_BECOME_MONITOR) e0])) /\
+                 forall x, is_monitor st x = false ->
+                   view x (snd (let '(st', l) := (core st, [error_reply (core st) c (call_msg c s I_MONITORING M_BECOME_MONITOR) e0]) in
+                                (st', entry_item (core st) c (call_msg c s I_MONITORING M_BECOME_MONITOR) :: l))) =
+                   view x (snd (let '(st', l) := (st, [error_reply st c (call_msg c s I_MONITORING M_BECOME_MONITOR) e0]) in
+                                (st', entry_item st c (call_msg c s I_MONITORING M_BECOME_MONITOR) :: l)))).
+    { intros e0. split; [simpl; exact CC|]. intros x _. apply view_of_erase. simpl.
+      rewrite (error_reply_erase st c _ _ Hm). reflexivity. }
+    destruct (memN c (st_unpriv st)); [apply RF|]. destruct (negb so); [apply RF|]. destruct (negb (fl =? 0)); [apply RF|].
+    destruct (parse_all rs) as [fs|]; [|apply RF].
+    destruct (become_monitor_erase st c s fs C Hm) as [H1 H2].
     destruct (become_monitor (core st) c s fs) as [s' l']. destruct (become_monitor st c s fs) as [s0 l0]. simpl in *.
     split; auto. intros x _. apply view_of_erase. simpl. rewrite H2. reflexivity.
 Qed.
